@@ -59,9 +59,16 @@ def run_cfg(ctx, p, cfg):
 
     with ctx.rule("J2", "exactly one terminator", cfg) as r:
         f = inner_fn(p)
-        uses = [c for c in f.calls() if any(any(x == ("param", 2) for x in walk(a)) for a in c.arg_exprs())
+        CTOR = "serde_json::ser::Serializer::<W>::new"
+
+        def hands_over(a):
+            # the writer itself, or the serializer wrapping it, is the argument (a value merely computed from a
+            # call that used the writer -- an error being converted -- is not a use of the writer)
+            d = deep_strip(a)
+            return d == ("param", 2) or (d[0] == "call" and d[1] == CTOR and any(x == ("param", 2) for x in walk(d)))
+        uses = [c for c in f.calls() if any(hands_over(a) for a in c.arg_exprs())
                 and c.callee not in ("core::ops::try_trait::Try::branch", "core::ops::try_trait::FromResidual::from_residual")]
-        ser = [c for c in uses if any(x[0] == "call" and x[1] == "serde_json::ser::Serializer::<W>::new" for a in c.arg_exprs() for x in walk(a)) and c.callee != "serde_json::ser::Serializer::<W>::new"]
+        ser = [c for c in uses if any(deep_strip(a)[0] == "call" and deep_strip(a)[1] == CTOR for a in c.arg_exprs()) and c.callee != CTOR]
         ctor = [c for c in uses if c.callee == "serde_json::ser::Serializer::<W>::new"]
         wa = [c for c in uses if c.callee == "std::io::Write::write_all"]
         other = [c.callee for c in uses if c not in ser and c not in ctor and c not in wa]
